@@ -111,43 +111,50 @@ Definition bytesumN (l : list N) : N := Z.to_N (bytesum (map Z.of_N l) mod 256).
 Fixpoint last_tok (ts : list tok) : option tok :=
   match ts with [] => None | [t] => Some t | _ :: r => last_tok r end.
 
-Definition wire_ok (c : ctx) (bytes : list N) : bool :=
-  match tokenize bytes with
-  | None => false
-  | Some ts =>
-    match ts, last_tok ts with
-    | t8 :: t9 :: t35 :: _, Some t10 =>
-      (k_tag t8 =? 8) && (k_tag t9 =? 9) && (k_tag t35 =? 35) && (k_tag t10 =? 10) &&
-      list_eqb (k_val t8) (c_begin c) &&
-      (* (c) *)
-      match decimal (k_val t9) with
-      | Some n => (k_end t9 <=? k_start t10) && (n =? k_start t10 - k_end t9)
-      | None => false
-      end &&
-      (* (d) *)
-      (lenN (k_val t10) =? 3) &&
-      match dec_val (k_val t10) 0 with
-      | Some v => v =? bytesumN (firstN (k_start t10) bytes)
-      | None => false
-      end &&
-      (* (e) *)
-      match find_msg (c_msgs c) (k_val t35) with
-      | None => false
-      | Some md =>
-        let fuel := S (S (S (length ts + length ts + length ts))) in
-        match part_ok fuel (c_header c) 0 ts with
-        | Some r1 =>
-          match part_ok fuel (md_meta md) 0 r1 with
-          | Some r2 =>
-            match part_ok fuel (c_trailer c) 0 r2 with
-            | Some [] => true
-            | _ => false
-            end
-          | None => false
+(* (b) (c) (d): framing *)
+Definition frame_ok (c : ctx) (bytes : list N) (ts : list tok) : bool :=
+  match ts, last_tok ts with
+  | t8 :: t9 :: t35 :: _, Some t10 =>
+    (k_tag t8 =? 8) && (k_tag t9 =? 9) && (k_tag t35 =? 35) && (k_tag t10 =? 10) &&
+    list_eqb (k_val t8) (c_begin c) &&
+    match decimal (k_val t9) with
+    | Some n => (k_end t9 <=? k_start t10) && (n =? k_start t10 - k_end t9)
+    | None => false
+    end &&
+    (lenN (k_val t10) =? 3) &&
+    match dec_val (k_val t10) 0 with
+    | Some v => v =? bytesumN (firstN (k_start t10) bytes)
+    | None => false
+    end
+  | _, _ => false
+  end.
+
+(* (e): header, body, trailer in turn, nothing left *)
+Definition struct_ok (c : ctx) (ts : list tok) : bool :=
+  match ts with
+  | _ :: _ :: t35 :: _ =>
+    match find_msg (c_msgs c) (k_val t35) with
+    | None => false
+    | Some md =>
+      let fuel := S (S (S (length ts + length ts + length ts))) in
+      match part_ok fuel (c_header c) 0 ts with
+      | Some r1 =>
+        match part_ok fuel (md_meta md) 0 r1 with
+        | Some r2 =>
+          match part_ok fuel (c_trailer c) 0 r2 with
+          | Some [] => true
+          | _ => false
           end
         | None => false
         end
+      | None => false
       end
-    | _, _ => false
     end
+  | _ => false
+  end.
+
+Definition wire_ok (c : ctx) (bytes : list N) : bool :=
+  match tokenize bytes with
+  | None => false
+  | Some ts => frame_ok c bytes ts && struct_ok c ts
   end.
